@@ -286,7 +286,25 @@ func genCaseC19(rt *rapid.T) *c19Case {
 			} else if op.Wildcard && op.Pattern == "" {
 				catchAll = true
 			}
-			op.Sels, op.Frags = exec.GenSelection(rt, schema, ret, exec.Profile{MaxDepth: rapid.IntRange(1, 3).Draw(rt, lab+"depth"), Abstract: c.Abstract}, lab+"sel")
+			op.Sels, op.Frags = exec.GenSelection(rt, schema, ret, exec.Profile{MaxDepth: rapid.IntRange(1, 3).Draw(rt, lab+"depth"), Abstract: c.Abstract, Dirs: rapid.Bool().Draw(rt, lab+"dirs"), LitDirs: true}, lab+"sel")
+			if ret == "Event" && op.Field != "batch" && rapid.IntRange(0, 5).Draw(rt, lab+"twinSelections") == 0 {
+				// two subscriptions for the same events whose selections are the same text but for a
+				// condition on a fragment spread
+				fr := &hx.Frag{Name: fmt.Sprintf("FW%d", i), On: "Event", Sels: []*hx.Sel{{Kind: "field", Name: "n"}, {Kind: "field", Name: "kind"}}}
+				first := op
+				first.Sels = []*hx.Sel{{Kind: "spread", Name: fr.Name}, {Kind: "field", Name: "id"}}
+				first.Frags = []*hx.Frag{fr}
+				first.FailAt = nil
+				second := first
+				cond := rapid.SampledFrom([]hx.DirUse{{Name: "skip", Args: []hx.KV{{Key: "if", V: hx.Bool(true)}}}, {Name: "include", Args: []hx.KV{{Key: "if", V: hx.Bool(false)}}}}).Draw(rt, lab+"twinCond")
+				second.Sels = []*hx.Sel{{Kind: "spread", Name: fr.Name, Dirs: []hx.DirUse{cond}}, {Kind: "field", Name: "id"}}
+				if rapid.Bool().Draw(rt, lab+"twinOrder") {
+					first, second = second, first
+				}
+				c.Ops = append(c.Ops, first, second)
+				subs += 1
+				continue
+			}
 			if subs > 1 && rapid.IntRange(0, 3).Draw(rt, lab+"reuse") == 0 {
 				// an application that keeps the parsed subscription request and resolves it once per client
 				op.ReuseOf = rapid.IntRange(1, subs-1).Draw(rt, lab+"reuseOf")
